@@ -417,6 +417,56 @@ def listing_rules(facts, rep, w, rule="R09.4"):
     return n
 
 
+def relative_join_rules(facts, rep, w, rule="R09.6"):
+    """every path the overlay builds on a layer is joined *relative* to that layer (the key without its leading '/', or a
+    literal that does not start with '/'): an absolute argument restarts at the root of the layer's filesystem, which is
+    the same place only while every layer is a filesystem root"""
+    from ..facts import decode_fmt_template
+    ov = Overlay(facts, w)
+    n = 0
+
+    def relative(a, alts_have_stripped):
+        a = norm(a)
+        while a[0] == "call" and a[1] in ("AsRef::as_ref", "Deref::deref", "String::as_str", "Borrow::borrow", "Into::into", "From::from",
+                                          "hint::must_use", "ToString::to_string", "ToOwned::to_owned") and a[2]:
+            a = norm(a[2][0])
+        if a[0] == "str":
+            return not a[1].startswith("/")
+        if a[0] == "call" and a[1] == "Index::index" and len(a[2]) == 2 and a[2][1][0] == "agg":
+            rng = a[2][1]
+            if rng[1].endswith("RangeFrom"):
+                return dict(rng[3]).get("start") == ("int", 1)
+            if rng[1].endswith(("RangeTo", "Range")):
+                # a prefix of something: relative iff its base is
+                return relative(a[2][0], alts_have_stripped) or (rng[1].endswith("Range") and dict(rng[3]).get("start") == ("int", 1))
+        if a[0] == "call" and a[1] == "fmt::format" and a[2]:
+            x = a[2][0]
+            if x[0] == "call" and len(x[2]) >= 1 and x[2][0][0] == "bytes":
+                tpl = decode_fmt_template(x[2][0][1])
+                return bool(tpl) and tpl[0][0] == "lit" and bool(tpl[0][1]) and not tpl[0][1].startswith("/")
+        if a[0] == "arg" and alts_have_stripped:
+            return True   # `if !path.is_empty() { &path[1..] } else { path }`: the other alternative is the empty path
+        return False
+
+    for b in list(ov.helpers.values()) + list(ov.ops.values()):
+        for cb, s, tr in ov.sites(b):
+            if sname(s.path) != "join" or not (s.self_ty and s.self_ty.endswith("VfsPath")) or len(s.args) < 2:
+                continue
+            recv = tr.operand(s.args[0])
+            cls = ov.origin_class(recv)
+            if not (cls & {"upper", "anylayer"}):
+                continue
+            a = norm(tr.operand(s.args[1]))
+            alts_ = a[1] if a[0] == "phi" else (a,)
+            has_stripped = any(relative(x, False) for x in alts_)
+            ok = all(relative(x, has_stripped) for x in alts_)
+            n += 1
+            rep.ob(rule, b.id, "layer paths are joined relative to the layer", ok, fmt(a)[:70] if ok else
+                   "a layer path is joined with %s, which can start with '/': the join restarts at the root of the layer's "
+                   "filesystem, so for a layer that is a sub-directory the overlay reads/writes the wrong place" % fmt(a)[:70], s.line)
+    return n
+
+
 def materialisation_rules(facts, rep, w, rule="R09.2"):
     ov = Overlay(facts, w)
     n = 0
@@ -443,6 +493,27 @@ def materialisation_rules(facts, rep, w, rule="R09.2"):
             n += 1
             rep.ob(rule, b.id, "parent chain materialised only for directories the union shows", ok, "" if ok else
                    "create_dir_all on the upper layer is not dominated by a successful union exists of that directory", s.line)
+            # ... and always for those: the only conditions in front of it are the union lookup and the split of the path.  A
+            # remembered "already copied up" (cache, flag, counter) makes the step skippable while another caller is still
+            # in the middle of it (C17) or after the directory was removed again (C09)
+            extra = []
+            for g in cb and tr.guards_at(s.bb):
+                root_calls = [x for x in walk(g[1]) if x[0] == "call" and isinstance(x[1], str)]
+                if not root_calls:
+                    continue
+                top = root_calls[0]
+                nm = sname(top[1])
+                if nm in ("exists", "rfind", "find", "is_empty", "branch", "from_residual", "len", "starts_with", "ends_with", "is_dir",
+                          "metadata", "eq", "ne", "into_future", "poll", "get_context", "new_unchecked") or short(top[1]) in ("Try::branch",):
+                    continue
+                hb = ov.inter.body_of_call(top)
+                if hb is not None and hb.impl and hb.impl["self_ty"] == w.overlay:
+                    continue   # the overlay's own helpers / trait methods (union lookups)
+                extra.append(short(top[1]))
+            n += 1
+            rep.ob(rule, b.id, "materialisation depends only on the union lookup", not extra,
+                   "" if not extra else "create_dir_all on the upper layer is additionally conditional on %s: the copy-up can be skipped "
+                   "although the directory is not (yet, or any more) in the upper layer" % sorted(set(extra))[:3], s.line)
     return n
 
 
@@ -456,6 +527,8 @@ def run(facts, rep, tier, ctx):
     rep.floor("resolver obligations", n, 5)
     n = listing_rules(facts, rep, ws)
     rep.floor("listing obligations", n, 8)
+    n = relative_join_rules(facts, rep, ws)
+    rep.floor("layer join sites", n, 6)
     # removal/re-creation relative to the union rests on the marker protocol (shared with C10)
     from . import c10
     n = c10.marker_rules(facts, rep, ws, prefix="R09.5")
@@ -466,6 +539,6 @@ def run(facts, rep, tier, ctx):
     if wa.present():
         A = c10._Prefixed(rep, "A")
         k = table_u(facts, A, wa, "R09.1") + materialisation_rules(facts, A, wa) + resolver_rules(facts, A, wa) + \
-            listing_rules(facts, A, wa) + c10.marker_rules(facts, A, wa, prefix="R09.5")
+            listing_rules(facts, A, wa) + c10.marker_rules(facts, A, wa, prefix="R09.5") + relative_join_rules(facts, A, wa)
         rep.floor("async overlay obligations", k, 55)
     rep.assume("layers behave as ordinary trees themselves (C01 applied to each layer)")
